@@ -19,7 +19,7 @@ def leaves(n, out):
         return
     for c in n.children: leaves(c, out)
 SMALL = ['{ a = 1; }', '{\n  a = 1;\n  b = [ 1 2 ];\n}\n', 'let\n  v = 1;\nin\n{\n  a = v;\n}\n', '{ pkgs }:\n{\n  a = pkgs.x;\n}\n', 'x: x + 1', '[ 1 2 ]', 'with p; { a = 1; }', 'if a then b else c', '"s${x}"', "''\n  a\n''"]
-PAD = ['', '', '\n', '\n\n', '  ', '\t', ' \n ', '\n\n\n']
+PAD = ['', '', '\n', '\n\n', '  ', '\t', ' \n ', '\n\n\n', '\r\n', ' \r\n\r\n', '\r']
 INS = ['{', '}', ';', '=', '(', ')', '[', ']', 'in', 'let', '"', "''", '${', ':', ',', '@', '?', '..', '=;']
 G1 = DocGen(R); G2 = PkgGen(R)
 def damaged():
@@ -34,6 +34,7 @@ def damaged():
     else: t = ''.join(R.choice('{}[]();=.:,@?"\'$ \nabc019#/*-+<>!&|') for _ in range(R.randrange(1, 30))).encode(); how = 'random'
     try: s = t.decode()
     except UnicodeDecodeError: return None, how
+    if R.random() < 0.1: s = s.replace('\n', '\r\n')            # CRLF line ends
     return R.choice(PAD) + s + R.choice(PAD), how
 PATHS = ['a', 'a.b', 'zz', '@x', '@@x', '@v', '"q"', 'b']
 rows, vrows, viol, stats, samples = [], [], [], {}, []
